@@ -29,6 +29,8 @@ struct CtState {
 	group: Vec<Candle>,
 	hist: Vec<Candle>,
 	outs: Vec<Candle>,
+	/// the constructor rejected this (valid, non-zero) period: reported at the first step
+	rejected: bool,
 }
 struct CtSys {
 	name: String,
@@ -56,7 +58,14 @@ impl System for CtSys {
 		let sp = spec("CollapseTimeframe");
 		self.periods
 			.iter()
-			.map(|&p| (CtState { imp: (sp.ctor)(&Params::U(p), &In::C(self.alphabet[0])).unwrap(), period: p, group: vec![], hist: vec![], outs: vec![] }, format!("period={p}")))
+			.map(|&p| {
+				let (imp, rejected) = match catch(|| (sp.ctor)(&Params::U(p), &In::C(self.alphabet[0]))) {
+					Ok(Ok(i)) => (i, false),
+					// a placeholder instance; the state is flagged and its first step reports the rejection
+					_ => ((sp.ctor)(&Params::U(1), &In::C(self.alphabet[0])).unwrap(), true),
+				};
+				(CtState { imp, period: p, group: vec![], hist: vec![], outs: vec![], rejected }, format!("period={p}"))
+			})
 			.collect()
 	}
 	fn actions(&self, s: &CtState, depth: u32) -> Vec<(Candle, u8)> {
@@ -85,6 +94,9 @@ impl System for CtSys {
 	}
 	fn step(&self, s: &CtState, a: &Candle) -> Step<CtState> {
 		let mut n = s.clone();
+		if s.rejected {
+			return Step::Violation(Failure::new("CollapseTimeframe/new/rejected-valid-period", format!("CollapseTimeframe::new({}) returned an error or panicked; every period > 0 is documented as valid", s.period)));
+		}
 		let out = match catch(|| n.imp.next(&In::C(*a))) {
 			Ok(Out::OC(o)) => o,
 			Ok(o) => return Step::Violation(Failure::new("CollapseTimeframe/kind", o.show())),
